@@ -3,6 +3,7 @@ use embedded_io_async::Error as _;
 
 use crate::mqtt_client::OpKind;
 use crate::mqtt_client::outbound::{CONTROL_PACKET_LEN, write_all};
+use crate::mqtt_client::session::state::Closing;
 use crate::packets::{Disconnect, PublishHeader, Subscribe, Unsubscribe};
 use crate::properties::{Properties, PropertyContext};
 use crate::publication::{Publication, ToPayload};
@@ -22,31 +23,72 @@ impl<'buf, IO: Io> Connection<'_, 'buf, IO> {
         if !self.live {
             return Ok(());
         }
-        info!("Graceful disconnect requested");
-        if let Some(properties) = disconnect.properties()
-            && !properties.valid_for(PropertyContext::Disconnect)
-        {
-            return Err(Error::InvalidRequest);
+        if self.session.runtime.closing.is_none() {
+            info!("Graceful disconnect requested");
+            if let Some(properties) = disconnect.properties()
+                && !properties.valid_for(PropertyContext::Disconnect)
+            {
+                return Err(Error::InvalidRequest);
+            }
+            // A cancelled operation may have left a packet partially written: the DISCONNECT must
+            // not land inside it.
+            self.finish_partial_packet().await?;
+            // The dedicated control storage holds a plain or reason-only DISCONNECT even when the
+            // TX arena is full. A DISCONNECT carrying properties does not fit there and is encoded
+            // in the free part of the arena instead.
+            let mut inline = [0u8; CONTROL_PACKET_LEN];
+            let encoded = MqttSerializer::encode_with_offset(&mut inline, &disconnect)
+                .map(|(start, packet)| (start, packet.len()));
+            let (arena_offset, len) = match encoded {
+                Ok((start, len)) => {
+                    inline.copy_within(start..start + len, 0);
+                    (None, len)
+                }
+                Err(SerError::InsufficientMemory) => {
+                    let (offset, len) = self.session.data.outbound.encode_packet(&disconnect)?;
+                    (Some(offset), len)
+                }
+                Err(err) => return Err(err.into()),
+            };
+            self.session.runtime.require_packet_size(len)?;
+            // From here on the packet is owned by the session: a cancelled call is resumed, not
+            // restarted, by the next operation on this connection.
+            self.session.runtime.closing = Some(Closing {
+                inline,
+                arena_offset,
+                len,
+                written: 0,
+            });
         }
-        // A cancelled operation may have left a packet partially written: the DISCONNECT must not
-        // land inside it.
-        self.finish_partial_packet().await?;
-        let mut buffer = [0u8; CONTROL_PACKET_LEN];
-        // The dedicated control storage holds a plain or reason-only DISCONNECT even when the TX
-        // arena is full. A DISCONNECT carrying properties does not fit there and is encoded in the
-        // free part of the arena instead.
-        let packet = match MqttSerializer::encode(&mut buffer, &disconnect) {
-            Ok(packet) => packet,
-            Err(SerError::InsufficientMemory) => MqttSerializer::encode(
-                self.session.data.outbound.scratch_space(),
-                &disconnect,
-            )?,
-            Err(err) => return Err(err.into()),
-        };
-        self.session.runtime.require_packet_size(packet.len())?;
-        let result = match write_all(&mut self.io, packet).await {
-            Ok(()) => self.io.flush().await.map_err(Error::Transport),
-            Err(err) => Err(err),
+        self.finish_closing().await
+    }
+
+    /// Complete the `DISCONNECT` begun by `disconnect_with()` and latch the handle.
+    pub(super) async fn finish_closing(&mut self) -> Result<(), Error<IO::Error>> {
+        let result = loop {
+            let Some(closing) = self.session.runtime.closing else {
+                return Ok(());
+            };
+            if closing.written == closing.len {
+                break self.io.flush().await.map_err(Error::Transport);
+            }
+            let bytes = match closing.arena_offset {
+                Some(offset) => self
+                    .session
+                    .data
+                    .outbound
+                    .retained_packet(offset, closing.len),
+                None => &closing.inline[..closing.len],
+            };
+            match self.io.write(&bytes[closing.written..]).await {
+                Ok(0) => break Err(Error::WriteZero),
+                Ok(count) => {
+                    if let Some(closing) = self.session.runtime.closing.as_mut() {
+                        closing.written += count;
+                    }
+                }
+                Err(err) => break Err(Error::Transport(err)),
+            }
         };
         // The transport is finished after a DISCONNECT regardless of the write outcome.
         self.handle_disconnect();
